@@ -9,7 +9,10 @@ var Monitors = map[string]func(*core.Run){
 	"C03": RunC03,
 	"C04": RunC04,
 	"C10": RunC10,
+	"C14": RunC14,
+	"C15": RunC15,
 	"C16": RunC16,
+	"C18": RunC18,
 	"C20": RunC20,
 	"C11": RunC11,
 	"C12": RunC12,
